@@ -237,7 +237,9 @@ fn main() {
             }
             if config == "keep" {
                 cmd.arg("--keep");
-                for f in schema.files.iter().skip(1) {
+                // chained corpora (odd seed) name the entry file only: retention has to
+                // reach the other files through the include graph
+                for f in schema.files.iter().skip(1).filter(|_| c.seed & 1 == 0) {
                     cmd.arg("--keep-also").arg(idl_dir.join(format!("{}.thrift", f.stem)));
                 }
             }
